@@ -265,6 +265,23 @@ func (env *SpecEnv) eval(e *Expr) (Val, error) {
 			return Val{}, err
 		}
 		switch e.Op {
+		case "*":
+			if a.LV != nil {
+				t, err := env.loadLV(a.LV)
+				if err != nil {
+					return Val{}, err
+				}
+				return tv(t, a.GoT), nil
+			}
+			pt, ok := a.GoT.Underlying().(*types.Pointer)
+			if !ok {
+				return Val{}, fmt.Errorf("%s: dereference of non-pointer", e)
+			}
+			t, err := env.loadLV(&LValue{Kind: lvCell, Ref: a.T, Typ: pt.Elem()})
+			if err != nil {
+				return Val{}, err
+			}
+			return tv(t, pt.Elem()), nil
 		case "!":
 			return tv(Not(a.T), a.GoT), nil
 		case "-":
@@ -452,7 +469,7 @@ func (env *SpecEnv) resolveType(s string) (types.Type, error) {
 		}
 	}
 	if s == "byte" {
-		return types.Typ[types.Uint8], nil
+		return types.Universe.Lookup("byte").Type(), nil
 	}
 	if s == "error" {
 		return types.Universe.Lookup("error").Type(), nil
@@ -1094,6 +1111,20 @@ func (env *SpecEnv) assignLocs(e *Expr) ([]assignLoc, error) {
 		if env.fnPkg != nil {
 			return []assignLoc{{key: "G$" + cleanName(env.fnPkg.Name()+"."+e.Args[0].Name), text: e.String()}}, nil
 		}
+	case e.Kind == eUn && e.Op == "*":
+		a, err := env.eval(e.Args[0])
+		if err != nil {
+			return nil, err
+		}
+		pt, ok := a.GoT.Underlying().(*types.Pointer)
+		if !ok {
+			return nil, fmt.Errorf("assigns %s: not a pointer", e)
+		}
+		var out []assignLoc
+		for _, k := range x.cellKeys(pt.Elem()) {
+			out = append(out, assignLoc{key: k, ref: a.T, text: e.String(), sort: x.cellSortOf(k, pt.Elem())})
+		}
+		return out, nil
 	case e.Kind == eField:
 		base, err := env.eval(e.Args[0])
 		if err != nil {
